@@ -215,8 +215,13 @@ func runFault(t *faultTask) *faultResult {
 				return
 			}
 		}
-		if len(t.Faults) == 0 {
-			// census of failable operations performed by the history (after the initial Open)
+		census := func() {
+			if len(t.Faults) != 0 {
+				return
+			}
+			// census of failable operations performed by the history (after the initial Open), by
+			// the settling and by the first read-back: a fault may also hit the reads that answer
+			// the client (an error there must surface as an error, not as "not found")
 			res.Census = map[string]int{}
 			for _, o := range w.Stor.Ops[base:] {
 				switch o.Kind {
@@ -227,6 +232,7 @@ func runFault(t *faultTask) *faultResult {
 			}
 		}
 		if dead {
+			census()
 			return
 		}
 		phase = "settle"
@@ -249,6 +255,7 @@ func runFault(t *faultTask) *faultResult {
 			explain = onlyWritten
 		}
 		obs, unk, errs := readBack(w.DB)
+		census()
 		w.Errs = append(w.Errs, errs...)
 		if !explain(w.Issued, w.Acked, obs, unk) {
 			res.Viol = append(res.Viol, fmt.Sprintf("while running: contents %v (unknown %v) not explained by the acknowledged writes plus a subset of the failed ones; issued=%v acked=%v", obs, unk, w.Issued, w.Acked))
